@@ -158,11 +158,24 @@ BLOCKS = {
 }
 
 
+INSIDE = {
+    "comment": ("@comment{", "}\n@a{k}"),
+    "preamble": ("@preamble{", "}"),
+    "string": ("@string{s = ", "}\n"),
+    "field": ("@a{k,\n t = ", "}\n@b{j}"),
+    "braced": ("@a{k, t = {", "},\n u = 1}"),
+    "quoted": ("@a{k, t = \"", "\", u = 1}"),
+    "key": ("@a{", ",\n t = 1}"),
+}
+
+
 def main():
     chk = Check("C03", __doc__)
     LG, LT = (6, 3) if chk.tier == "quick" else (8, 5)
+    LI = 4 if chk.tier == "quick" else 6
     chk.bounds = {"alphabet": SIGMA_S, "pure garbage: every text of length": f"0..{LG}",
                   "templates": f"B1 + X + B2 and B1 + X for B1,B2 in {sorted(BLOCKS)} (+ newline variants), X every text of length 0..{LT}"}
+    chk.bounds["inside bodies"] = f"X of length 1..{LI} inside @comment / @preamble / @string bodies, field values (bare, braced, quoted) and the key position"
     chk.assumptions = ["characters outside the alphabet are outside the claim (the alphabet has one representative per character class of the mark regex: each mark character, backslash, '@', a word character, blank, newline, '#')",
                        "CR / tab are not in the alphabet (blank and newline are)",
                        "field-line clause: checked for fields with a non-empty key followed by optional whitespace and '='"]
@@ -180,6 +193,9 @@ def main():
             chk.add_task(f"tmpl-{n1}+X{L}", task, parts=[("lit", b1), ("sym", L, SIGMA_S)], label=f"{n1}+X")
             for n2 in ("entry", "string", "comment"):
                 chk.add_task(f"tmpl-{n1}+X{L}+{n2}", task, parts=[("lit", b1), ("sym", L, SIGMA_S), ("lit", "\n" + BLOCKS[n2])], label=f"{n1}+X+{n2}")
+    for nm, (pre, post) in INSIDE.items():
+        for L in range(LI, 0, -1):
+            chk.add_task(f"inside-{nm}-X{L}", task, parts=[("lit", pre), ("sym", L, SIGMA_S), ("lit", post)], label=f"inside-{nm}")
     chk.run()
 
 
